@@ -84,3 +84,31 @@ func VerifC16ConcurrentReadNode() {
 	v.Freeze(0)
 	v.Cover("end")
 }
+
+// VerifC16SearcherConcurrentNode: a node returned by a Searcher with ConcurrentRead set is
+// concurrently readable whatever the other search options are (CopyReturn, ValidateJSON): it
+// starts raw, the first reader converts it under the node's write lock, and every store to
+// shared state happens inside that critical section.
+func VerifC16SearcherConcurrentNode() {
+	verifAstStubs()
+	s := NewSearcher(`{"a":{"xa":1,"xb":[1,2]},"b":2}`)
+	s.ValidateJSON = v.Bool("ValidateJSON")
+	s.CopyReturn = v.Bool("CopyReturn")
+	s.ConcurrentRead = true
+	n, err := s.GetByPath("a")
+	v.Assert(err == nil, "search for an existing key fails")
+	k := v.Byte("search")
+	v.Assume(k == 'a' || k == 'b' || k == 'c')
+	key := string([]byte{'x', k})
+	op1 := v.Concretize(v.Int("op1", 0, verifReadOps-1))
+	op2 := v.Concretize(v.Int("op2", 0, verifReadOps-1))
+	v.Freeze(1)
+	verifReadOp(&n, op1, key)
+	verifReadOp(&n, op2, key)
+	v.Freeze(0)
+	if s.CopyReturn {
+		v.Cover("copy")
+	} else {
+		v.Cover("refer")
+	}
+}
